@@ -413,14 +413,18 @@ impl<Store: StorageData> DbImpl<Store> {
         &mut self,
         f: impl FnOnce(&mut TransactionMut<Store>) -> Result<T, E>,
     ) -> Result<T, E> {
+        let id = self.storage.transaction();
         let mut transaction = TransactionMut::new(&mut *self);
         let result = f(&mut transaction);
 
-        if result.is_ok() {
-            transaction.commit()?;
+        let end = if result.is_ok() {
+            transaction.commit()
         } else {
-            transaction.rollback()?;
-        }
+            transaction.rollback()
+        };
+
+        self.storage.commit(id)?;
+        end?;
 
         result
     }
